@@ -196,6 +196,62 @@ theorem abandoned_call_never_applied (s0 : St) (as : List Act) (pre mid post : L
   simp only [awayOK] at h2
   exact awayOK_new_call mid _ post (List.mem_append_left _ hsr) h2
 
+/-! ## the window between waking the parked senders and capturing the checkpoint
+
+`handleCheckpointBarrier` closes `allBarriersReceived` (waking the parked senders) before it flushes and captures.
+`hstep`/`hrunFrom` (Model/Align.lean) let a schedule stop the consumer exactly there (`hold`), let woken senders
+run on, and `resume`. -/
+
+/-- all plain actions of a schedule with holds -/
+def HPlain (has : List HAct) : Prop := ∀ a ∈ HAct.bases has, a.plain = true
+
+/-- **A released sender waits for the capture.** While the consumer is held inside the last barrier's handler, a
+sender that runs on (woken or already at the gate) changes nothing and is not served: it can only queue on the
+consumer's channel. On `resume` the consumer first finishes the handler of the held barrier — flush, DKV capture,
+ack, reset — and only then takes the queued senders' items: the trace of `resume` is the trace of `go sr0`
+followed by the `go`s of the queue, so a woken sender's post-barrier event is never in the pending batch that
+the barrier handler flushes into checkpoint N. -/
+theorem released_sender_waits_for_capture (h : HSt) (sr0 : Nat) (hh : h.held = some sr0) :
+    (∀ x, (hstep h (HAct.base (Act.go x))).1.s = h.s ∧ (hstep h (HAct.base (Act.go x))).2 = []) ∧
+    (hstep h HAct.resume).2 = (step h.s (Act.go sr0)).2 ++
+        (runFrom (step h.s (Act.go sr0)).1 [] (h.queue.map Act.go)).2 ∧
+    (hstep h HAct.resume).1.s = (runFrom (step h.s (Act.go sr0)).1 [] (h.queue.map Act.go)).1 := by
+  refine ⟨?_, ?_, ?_⟩
+  · intro x
+    simp only [hstep, hh]
+    split <;> exact ⟨rfl, rfl⟩
+  · simp only [hstep, hh, runFrom]
+    rw [runFrom_acc]
+    simp
+  · simp only [hstep, hh, runFrom]
+    rw [runFrom_acc]
+
+/-- **Holds change nothing.** Every schedule with holds yields exactly the state and trace of a plain schedule, so
+every theorem above holds verbatim for schedules in which the consumer is stopped between waking the parked
+senders and capturing the checkpoint, in any order of the woken senders' progress. -/
+theorem held_schedule_is_plain_schedule (s0 : St) (has : List HAct) (hpl : HPlain has) :
+    ∃ as : List Act, Plain as ∧ (hrunFrom { s := s0 } [] has).1.s = (runFrom s0 [] as).1 ∧
+      (hrunFrom { s := s0 } [] has).2 = (runFrom s0 [] as).2 := by
+  obtain ⟨as, e1, e2, e3⟩ := hrun_sim has { s := s0 } []
+  refine ⟨as, ?_, e1, e2⟩
+  intro a ha
+  rcases e3 a ha with hb | ⟨x, rfl⟩
+  · exact hpl a hb
+  · rfl
+
+/-- the consistent cut for schedules with holds -/
+theorem consistent_cut_with_holds (s0 : St) (hf : Fresh s0) (has : List HAct) (hpl : HPlain has)
+    (pre post : List Obs) (id : Nat) (S : KVf) (T : Timers)
+    (h : (hrunFrom { s := s0 } [] has).2 = pre ++ Obs.snap id S T :: post) :
+    S = (entriesOf pre).foldl applyRec s0.kv ∧
+    userOf (entriesOf pre) = userOf s0.pending ++ userProcs (procsOf pre) ∧
+    (∀ sr, sr < s0.k → lastProc sr (procsOf pre) = some (Item.bar id)) ∧
+    T = timersOf s0.timers pre := by
+  obtain ⟨as, hp, _, e2⟩ := held_schedule_is_plain_schedule s0 has hpl
+  rw [e2] at h
+  obtain ⟨c1, c2, c3⟩ := consistent_cut s0 hf as hp pre post id S T h
+  exact ⟨c1, c2, c3, snapshot_timers s0 hf as hp pre post id S T h⟩
+
 /-! ## what the code guarantees when the ack to the job fails -/
 
 /-- the completing barrier still flushes the batch and takes the snapshot, the sender gets the error, and the
@@ -303,5 +359,16 @@ def demoAckFail : List Act :=
 
 example : rejectsOf (run 1 1 demoAckFail).2 = [(0, 2, 1)] := by decide
 example : (snapsOf (run 1 1 demoAckFail).2).map (·.1) = [1, 2] := by decide
+
+/-- the seeded race: sender 0 is parked with a post-barrier event (payload 9); the consumer is held in the last
+barrier's handler, sender 0 runs on, the consumer resumes: payload 9 is not in checkpoint 1 -/
+def demoHold : List HAct :=
+  [.base (.align 0 (.ev [0x61] 1 0)), .base (.go 0), .base (.align 0 (.bar 1)), .base (.go 0),
+   .base (.align 0 (.ev [0x61] 9 0)), .base (.align 1 (.bar 1)), .hold 1, .base (.go 0), .resume, .base .tick]
+
+example : ((hrunFrom { s := init 2 3 } [] (demoHold.take 8)).1.held, (hrunFrom { s := init 2 3 } [] (demoHold.take 8)).1.queue)
+    = (some 1, [0]) := by decide
+example : (snapsOf (hrunFrom { s := init 2 3 } [] demoHold).2).map (fun x => (x.1, x.2.1 [0x61])) = [(1, [1])] := by decide
+example : (hrunFrom { s := init 2 3 } [] demoHold).1.s.kv [0x61] = [1, 9] := by decide
 
 end Rxn.C02
